@@ -3,15 +3,24 @@ proof: Dialect/SepPair.v over the hand model Dialect/SepPairModel.v (signed-zero
 tie (C): exhaustive correspondence of the model with the real dialect::SepPair / SepMatrix on every run
  - all 576 SepPair states (2x2 gap types x 3x3 sep types x 4x4 gaps {-2,-0.0,+0.0,2}) x 7 transforms, x 49 transform
    pairs, x 192 addSep requests, cardinal queries: compared field by field incl. the sign bit;
- - SepMatrix op sequences (same pair, both id orders, with / without intervening queries): stored pairs + query results;
+ - SepMatrix op sequences over EVERY public mutator overload (addSep, addFixedRelativeSep with given offsets and the position-based
+   2-argument overload that reads the node centres, setCardinalOP, hAlign, vAlign, alignByEquatedCoord, free, clear, setSepPair,
+   transform / transformClosedSubset / transformOpenSubset, removeNode(s), roundGapsUpward, setExtraBdryGap,
+   setCorrespondingConstraints; same pair in both id orders, with / without intervening queries, nodes moved between requests):
+   stored pairs + query results + which records the present placement satisfies;
  - generateSeparationConstraints on boundary-directed placements, before and after the real transform;
 property oracles run on the REAL outputs (these decide VIOLATION with a failing input):
  - transform_commutes: the real generated constraints of the really transformed pair hold for the transformed placement
    iff the verified `holdsb` of the original pair holds for the original placement;
  - transform_group: the real transforms compose like the 2x2 signed permutation matrices (D4);
- - flip_equiv: an op sequence and its id-order-normalised twin leave the same stored pairs in the real SepMatrix;
- - TGLF: Graph::writeTglf -> buildGraphFromTglf, node/edge/route dumps equal, pairs equivalent by the verified
-   checker sep_equivb, write throws iff some pair is `coincide`."""
+ - flip_equiv: an op sequence and its id-order-normalised twin leave the same stored pairs in the real SepMatrix (identical for the
+   directed requests; for the symmetric ones - alignments, present offset - equivalent by the verified checker sep_equivb, because
+   the sign bit of a zero CENTRE/EQ gap depends on the id order); the record stored by addFixedRelativeSep(id1,id2) holds for the
+   present placement (real generated constraints);
+ - TGLF: Graph::writeTglf(useExternalIds) -> buildGraphFromTglf in both id modes on graphs whose nodes all / partly / never carry an
+   external id, with controlled internal ids (boundary-directed at the case split "smallest internal id lacking an external id vs
+   largest external id"): written node ids pairwise distinct and equal to the given ids where they exist, node/edge/route dumps
+   equal, pairs equivalent by the verified checker sep_equivb, write throws iff some pair is `coincide`."""
 import os, json, tempfile
 from vlib import common as C
 
@@ -90,41 +99,108 @@ def gen_ops(rng, tier):
                                                 seqs.append([first] + mid + ['A %d %d %d %d %d %s' % (o2[0], o2[1], gt2, sd2, st2, gb),
                                                                              'D', 'C 0 1', 'C 1 0'])
     n_exh = len(seqs)
-    # random longer sequences over 3 nodes
-    allg = ['-12', '-8', '-2', '-0', '+0', '+2', '+8', '+12']
-    nrand = 3000 if tier == 'quick' else 20000
+    # ---- every public mutator overload of SepMatrix (constraints.h), two requests on the pair {0,1} in both id orders, with /
+    # without an intervening query; the position-based overload addFixedRelativeSep(id1,id2) reads the node centres, so the
+    # sequences start by placing nodes 0 and 1 (all nine sign patterns of the offset, multiples of 0.25)
+    def requests(o):
+        i, j = o
+        r = []
+        for sd in range(8):
+            for k, g in enumerate(['-0', '+8']):
+                r.append('A %d %d %d %d %d %s' % (i, j, (sd + k) % 2, sd, 1 + (sd // 2 + k) % 2, g))
+        r += ['F %d %d %s %s' % (i, j, a, b) for a, b in (('+8', '-0'), ('-8', '+12'), ('+0', '+0'))]
+        r.append('P %d %d' % (i, j))
+        r += ['O %d %d %d' % (i, j, c) for c in range(4)]
+        r += ['h %d %d' % (i, j), 'v %d %d' % (i, j), 'E %d %d 0' % (i, j), 'E %d %d 1' % (i, j), 'R %d %d' % (i, j)]
+        return r
+    reqs = requests((0, 1)) + requests((1, 0))
+    offs = [(dx, dy) for dx in (-28, 0, 20) for dy in (-9, 0, 16)]
+    k = 0
+    for r1 in reqs:
+        for mid in mids:
+            for r2 in reqs:
+                k += 1
+                hasP = r1[0] == 'P' or r2[0] == 'P'
+                if tier == 'quick' and not hasP and k % 3:
+                    continue
+                for (dx, dy) in (offs if hasP else [offs[k % 9]]):
+                    seqs.append(['M 0 12 -8', 'M 1 %d %d' % (12 + dx, -8 + dy), r1] + mid + [r2, 'D', 'Q', 'C 0 1', 'C 1 0'])
+    n_ext = len(seqs)
+    # ---- random longer sequences over 3 nodes, all ops
+    allg = ['-12', '-8', '-2', '-0', '+0', '+2', '+8', '+12', '+9', '-5', '+1']
+    nrand = 4000 if tier == 'quick' else 25000
     for _ in range(nrand):
         s = []
-        for _ in range(rng.range(2, 8)):
-            k = rng.below(10)
+        if rng.chance(1, 3):
+            s.append('X %d' % rng.choice([0, 4, 5, 8]))
+        for v in range(3):
+            if rng.chance(2, 3):
+                s.append('M %d %d %d' % (v, rng.range(-12, 12) * rng.choice([1, 4]), rng.range(-12, 12) * rng.choice([1, 4])))
+        for _ in range(rng.range(2, 9)):
+            k = rng.below(26)
             i = rng.below(3)
             j = rng.below(3) if rng.chance(1, 12) else (i + 1 + rng.below(2)) % 3
-            if k < 5:
+            if k < 6:
                 s.append('A %d %d %d %d %d %s' % (i, j, rng.below(2), rng.below(8), rng.below(3), rng.choice(allg)))
-            elif k < 6:
-                s.append('F %d %d %s %s' % (i, j, rng.choice(allg), rng.choice(allg)))
-            elif k < 7:
-                s.append('C %d %d' % (i, j))
             elif k < 8:
+                s.append('F %d %d %s %s' % (i, j, rng.choice(allg), rng.choice(allg)))
+            elif k < 11:
+                s.append('P %d %d' % (i, j))
+                if rng.chance(1, 2):
+                    s.append('Q')
+            elif k < 12:
+                s.append('O %d %d %d' % (i, j, rng.below(4)))
+            elif k < 13:
+                s.append('%s %d %d' % (rng.choice(['h', 'v']), i, j))
+            elif k < 14:
+                s.append('E %d %d %d' % (i, j, rng.below(2)))
+            elif k < 15:
+                s.append('R %d %d' % (i, j))
+            elif k < 16:
+                s.append('C %d %d' % (i, j))
+            elif k < 17:
                 s.append('%s %d %d' % (rng.choice(['H', 'V']), i, j))
-            elif k < 9:
+            elif k < 18:
                 s.append('T %d' % rng.below(7))
+            elif k < 20:
+                s.append('%s %d %d' % (rng.choice(['TC', 'TO']), rng.below(7), rng.below(8)))
+            elif k < 21:
+                s.append(rng.choice(['RN %d' % i, 'RM %d' % rng.below(8)]))
+            elif k < 22:
+                s.append('U')
+            elif k < 23:
+                s.append('K %d' % rng.below(8))
+            elif k < 24:
+                s.append('M %d %d %d' % (i, rng.range(-40, 40), rng.range(-40, 40)))
+            elif k < 25:
+                s.append('S %d %d %d %d %d %d %s %s' % (i, j, rng.below(2), rng.below(2), rng.below(3), rng.below(3), rng.choice(allg), rng.choice(allg)))
             else:
-                s.append('C %d %d' % (j, i))
+                s.append(rng.choice(['Z', 'Q', 'C %d %d' % (j, i)]))
             s.append('D')
+        s.append('Q')
         seqs.append(s)
-    return seqs, n_exh
+    return seqs, n_exh, n_ext
+
+
+CARD_FLIP = [2, 3, 0, 1]
+OLD_OPS = set('AFCHVTDN')
 
 
 def normalise_seq(seq):
-    """the flip_equiv twin: every request stated from the smaller id"""
+    """the flip_equiv twin: every request stated from the smaller id (direction / offsets negated where the request is directed;
+    the position-based and the alignment requests are symmetric)"""
     out = []
     for op in seq:
         f = op.split()
-        if f[0] == 'A' and int(f[1]) > int(f[2]):
-            out.append('A %s %s %s %d %s %s' % (f[2], f[1], f[3], NEG_SD[int(f[4])], f[5], f[6]))
-        elif f[0] == 'F' and int(f[1]) > int(f[2]):
-            out.append('F %s %s %s %s' % (f[2], f[1], neg_gap(f[3]), neg_gap(f[4])))
+        if f[0] in ('A', 'F', 'P', 'O', 'h', 'v', 'E', 'R') and int(f[1]) > int(f[2]):
+            if f[0] == 'A':
+                out.append('A %s %s %s %d %s %s' % (f[2], f[1], f[3], NEG_SD[int(f[4])], f[5], f[6]))
+            elif f[0] == 'F':
+                out.append('F %s %s %s %s' % (f[2], f[1], neg_gap(f[3]), neg_gap(f[4])))
+            elif f[0] == 'O':
+                out.append('O %s %s %d' % (f[2], f[1], CARD_FLIP[int(f[3])]))
+            else:
+                out.append(' '.join([f[0], f[2], f[1]] + f[3:]))
         else:
             out.append(op)
     return out
@@ -132,11 +208,25 @@ def normalise_seq(seq):
 
 def n_out(op):
     f = op.split()
-    if f[0] in ('C', 'H', 'V', 'D'):
+    if f[0] in ('C', 'H', 'V', 'D', 'K', 'Q'):
         return 1
-    if f[0] in ('A', 'F') and f[1] == f[2]:
+    if f[0] in ('A', 'F', 'P', 'O', 'h', 'v', 'E') and f[1] == f[2]:
+        return 1
+    if f[0] == 'S' and int(f[1]) >= int(f[2]):
         return 1
     return 0
+
+
+def parse_dump(line):
+    """'D | lo hi xgt ygt xst yst xgap ygap | ... | e N' -> ({(lo,hi): 'pair text'}, extra)"""
+    pairs, extra = {}, '0'
+    for seg in line.split(' | ')[1:]:
+        f = seg.split()
+        if f[0] == 'e':
+            extra = f[1]
+        else:
+            pairs[(int(f[0]), int(f[1]))] = ' '.join(f[2:8]) + (' BADSRC' if len(f) > 8 else '')
+    return pairs, extra
 
 
 def write_ops(path, seqs):
@@ -212,17 +302,74 @@ def case_txt(c):
 
 
 def gen_tglf(rng, tier):
+    """graphs for the round trip; families (by which nodes carry an external id and which id mode is written):
+    allext      every node has a (random, distinct) external id, writeTglf(true)
+    internal    any external ids, writeTglf(false): internal ids are written
+    noext       no external ids, writeTglf(true)
+    file+added  a graph as read from a TGLF file whose ids start at `off` (external id = internal id + off) plus added nodes without
+                external id (Graph::addNode, bend nodes), optionally after skipped internal ids, writeTglf(true)
+    boundary    mixed; the largest external id is placed at (smallest internal id lacking an external id) + delta, delta in -2..2
+    mixed       mixed, random
+    Internal ids are controlled through `G <useExt> <first internal id>` and `s <skip>`."""
     graphs = []
     allg = ['-12', '-8', '-3', '-1', '-0', '+0', '+1', '+3', '+8', '+12', '+5']
-    for _ in range(400 if tier == 'quick' else 3000):
+    fams = ['allext', 'internal', 'noext', 'file+added', 'boundary', 'mixed', 'file+added', 'boundary']
+    for gi in range(480 if tier == 'quick' else 3600):
+        fam = fams[gi % len(fams)]
         n = rng.range(2, 7)
-        exts = rng.shuffle(list(range(20)))[:n]
-        lines = ['G']
-        for e in exts:
-            lines.append('n %d %d %d %d %d' % (e, rng.range(-200, 200), rng.range(-200, 200), 2 * rng.range(1, 20), 2 * rng.range(1, 20)))
+        base = rng.choice([0, 0, 0, 1, 3, 10])
+        use_ext = 0 if fam == 'internal' else 1
+        skips = [0] * n
+        ids = []
+        exts = [-1] * n
+        if fam == 'file+added':
+            nadd = rng.range(1, min(2, n - 1))
+            off = rng.choice([1, 1, 1, 0, 2])
+            skips[n - nadd] = rng.choice([0, 0, 0, 1, 2])
+        cur = base
+        for k in range(n):
+            cur += skips[k]
+            ids.append(cur)
+            cur += 1
+        if fam == 'allext' or (fam == 'internal' and rng.chance(1, 2)):
+            exts = rng.shuffle(list(range(20)))[:n]
+        elif fam == 'file+added':
+            for k in range(n - nadd):
+                exts[k] = ids[k] + off
+        elif fam in ('boundary', 'mixed', 'internal'):
+            have = [rng.chance(1, 2) for _ in range(n)]
+            if fam == 'boundary':
+                if all(have):
+                    have[rng.below(n)] = False
+                if not any(have):
+                    have[rng.below(n)] = True
+            pool = rng.shuffle(list(range(ids[-1] + 6)))
+            for k in range(n):
+                if have[k]:
+                    exts[k] = pool.pop()
+            if fam == 'boundary':
+                first_lacking = [ids[k] for k in range(n) if not have[k]][0]
+                top = first_lacking + rng.choice([-2, -1, 0, 0, 0, 1, 2])
+                hs = [k for k in range(n) if have[k]]
+                if top >= 0:
+                    k0 = rng.choice(hs)
+                    exts[k0] = top
+                    low = rng.shuffle([v for v in range(top)])
+                    for k in hs:
+                        if k != k0:
+                            if low:
+                                exts[k] = low.pop()
+                            else:
+                                exts[k] = -1
+        lines = ['G %d %d' % (use_ext, base)]
+        for k in range(n):
+            if skips[k]:
+                lines.append('s %d' % skips[k])
+            lines.append('n %d %d %d %d %d' % (exts[k], rng.range(-200, 200), rng.range(-200, 200), 2 * rng.range(1, 20), 2 * rng.range(1, 20)))
         used = set()
+        idx = list(range(n))
         for _ in range(rng.range(0, 2 * n)):
-            a, b = rng.choice(exts), rng.choice(exts)
+            a, b = rng.choice(idx), rng.choice(idx)
             if a == b or (a, b) in used or (b, a) in used:
                 continue
             used.add((a, b))
@@ -230,13 +377,33 @@ def gen_tglf(rng, tier):
             lines.append(('e %d %d %s' % (a, b, pts)).strip())
         lines.append('x %d' % rng.choice([0, 0, 1, 4, 6]))
         for _ in range(rng.range(0, 2 * n)):
-            a, b = rng.choice(exts), rng.choice(exts)
+            a, b = rng.choice(idx), rng.choice(idx)
             if a == b:
                 continue
             # cardinal EQ CENTRE with zero gap would make the pair `coincide` (writer rejects): keep it rare
             lines.append('c %d %d %d %d %d %s' % (a, b, rng.below(2), rng.below(8), rng.range(1, 2), rng.choice(allg)))
-        graphs.append(lines)
+        graphs.append({'family': fam, 'lines': lines, 'use_ext': use_ext})
     return graphs
+
+
+def tglf_id_relation(g):
+    """how the largest external id relates to the smallest internal id lacking one (the case split of Graph::writeTglf)"""
+    cur, ids, exts = 0, [], []
+    for l in g['lines']:
+        f = l.split()
+        if f[0] == 'G':
+            cur = int(f[2])
+        elif f[0] == 's':
+            cur += int(f[1])
+        elif f[0] == 'n':
+            ids.append(cur); exts.append(int(f[1])); cur += 1
+    lack = [i for i, e in zip(ids, exts) if e < 0]
+    if not lack:
+        return 'all-have-ext'
+    if max(exts) < 0:
+        return 'none-has-ext'
+    d = lack[0] - max(exts)
+    return 'first-lacking %s max-ext' % ('<' if d < 0 else '==' if d == 0 else '>')
 
 
 # ----------------------------------------------------------------------------------------- the check
@@ -360,7 +527,13 @@ def run(tier):
     cov['gen'] = {'cases': len(cases), 'histogram': hist}
 
     # ---- 3. SepMatrix op sequences: correspondence + flip_equiv on the real matrix
-    seqs, n_exh = gen_ops(rng.fork(), tier)
+    seqs, n_exh, n_ext = gen_ops(rng.fork(), tier)
+    corpus_ops = os.path.join(C.VERIF, 'corpus', 'c18_ops.json')
+    n_corpus = 0
+    if os.path.exists(corpus_ops):
+        cs_ = json.load(open(corpus_ops))
+        n_corpus = len(cs_)
+        seqs = seqs + [e['ops'] for e in cs_]           # appended: the index ranges of the exhaustive families stay valid
     of, nf = os.path.join(tmp, 'ops.txt'), os.path.join(tmp, 'ops_norm.txt')
     write_ops(of, seqs)
     nseqs = [normalise_seq(s) for s in seqs]
@@ -379,23 +552,85 @@ def run(tier):
     if not (k1 == len(L(o_cpp)) and k3 == len(L(o_mod)) and k2 == len(L(o_norm))):
         corr_diffs.append({'section': 'ops', 'what': 'unexpected number of output lines', 'harness': len(L(o_cpp)), 'expected': k1,
                            'model': len(L(o_mod))})
-    flip_bad, stale_like = None, 0
+    OPFMT = ('A id1 id2 gapType(0=CENTRE,1=BDRY) dir(%s) sepType(0=NONE,1=EQ,2=INEQ) gap*4 with sign bit = addSep; F id1 id2 dx dy = '
+             'addFixedRelativeSep(id1,id2,dx,dy); P id1 id2 = addFixedRelativeSep(id1,id2) (present offset); O id1 id2 card = setCardinalOP; '
+             'h/v = hAlign/vAlign; E id1 id2 dim = alignByEquatedCoord; R = free; Z = clear; S = setSepPair; M node x*4 y*4 = Node::setCentre; '
+             'X = setExtraBdryGap*4; T t / TC t mask / TO t mask = transform / transformClosedSubset / transformOpenSubset; RN / RM mask = '
+             'removeNode(s); U = roundGapsUpward; K mask = setCorrespondingConstraints into a graph with the nodes of mask; '
+             'C/H/V = getCardinalDir/areHAligned/areVAligned; Q = which stored records the present placement satisfies (real generated '
+             'constraints); D = dump (lo hi xgt ygt xst yst xgap*4 ygap*4 ... e extraBdryGap*4); three nodes 0,1,2 with increasing ids'
+             % ','.join(SD))
+    REPLAY = 'printf "N\\n<ops, one per line>\\n" > f; <c18_sep harness> ops f'
+    flip_bad, frozen_bad, stale_like = None, None, 0
+    # pass 1: textual comparison with the twin; differing dump lines of sequences that use the new (symmetric) requests are decided by the
+    # verified equivalence checker sep_equivb (e.g. hAlign(b,a) stores -0.0 where hAlign(a,b) stores +0.0: same meaning)
+    pending, questions = [], []
     for i, s in enumerate(seqs):
         evals += len(pc[i])
-        dump = lambda ls: [l for l in ls if l.startswith('D')]
-        if dump(pc[i]) != dump(pn[i]) and flip_bad is None:
-            flip_bad = {'what': 'flip_equiv fails on the real SepMatrix: a request stated as (b,a,negated direction) is stored differently '
-                                'from the same request stated as (a,b)',
-                        'ops': s, 'ops_normalised': nseqs[i], 'stored_pairs': dump(pc[i]), 'stored_pairs_normalised': dump(pn[i]),
-                        'op_format': 'A id1 id2 gapType(0=CENTRE,1=BDRY) dir(%s) sepType(0=NONE,1=EQ,2=INEQ) gap*4 with sign bit; '
-                                     'C/H/V = getCardinalDir/areHAligned/areVAligned; T = transform; D = dump' % ','.join(SD),
-                        'matches_old_stale_flag_model': pc[i] == po[i],
-                        'replay': 'harness/c18_sep.cpp ops <file with "N" + the ops>'}
+        if pc[i] != pn[i] and flip_bad is None:
+            only_old = all(op.split()[0] in OLD_OPS for op in s)
+            what = None
+            qs = []
+            if len(pc[i]) != len(pn[i]):
+                what = 'different number of outputs'
+            else:
+                for x, y in zip(pc[i], pn[i]):
+                    if x == y:
+                        continue
+                    if only_old or x[0] not in 'DK' or y[0] != x[0]:
+                        what = 'outputs differ: %s / %s' % (x, y)
+                        break
+                    (px_, ex), (py_, ey) = parse_dump(x), parse_dump(y)
+                    if set(px_) != set(py_) or ex != ey:
+                        what = 'stored pairs differ: %s / %s' % (x, y)
+                        break
+                    qs += ['%s %s | %s | %s' % (ex, ey, px_[k_], py_[k_]) for k_ in sorted(px_) if px_[k_] != py_[k_]]
+            if what is None and qs:
+                pending.append((i, len(questions), len(qs)))
+                questions += qs
+            elif what:
+                flip_bad = (i, what)
+    if questions and flip_bad is None:
+        qf = os.path.join(tmp, 'equiv.txt')
+        open(qf, 'w').write('\n'.join(questions) + '\n')
+        rc, o_eq, err, dt = C.sh([drv, 'equiv', qf], timeout=600)
+        ans = L(o_eq)
+        if len(ans) != len(questions):
+            corr_diffs.append({'section': 'ops', 'what': 'equivalence checker did not answer every question', 'stderr': err[-500:]})
+        else:
+            for (i, a0, n0) in pending:
+                if any(ans[a0 + t] != '1' for t in range(n0)):
+                    t = [t for t in range(n0) if ans[a0 + t] != '1'][0]
+                    flip_bad = (i, 'stored pairs are not equivalent (sep_equivb: some placement satisfies one and not the other): ' + questions[a0 + t])
+                    break
+    cov_equiv = len(questions)
+    if flip_bad:
+        i, what = flip_bad
+        flip_bad = {'what': 'flip_equiv fails on the real SepMatrix: a request stated as (b,a) [direction / offsets negated where the request is '
+                            'directed] is stored differently from the same request stated as (a,b): ' + what,
+                    'ops': seqs[i], 'ops_normalised': nseqs[i], 'outputs': pc[i], 'outputs_normalised': pn[i],
+                    'op_format': OPFMT, 'matches_old_stale_flag_model': pc[i] == po[i], 'model_outputs': pm[i], 'replay': REPLAY}
+    for i, s in enumerate(seqs):
         if i < n_exh and len(pc[i]) >= 2 and flip_bad is None:
             c1, c2 = pc[i][-2], pc[i][-1]
             if c1[:2] == 'C ' and c2[:2] == 'C ' and {'E': 'W', 'W': 'E', 'S': 'N', 'N': 'S'}.get(c1[2], c1[2]) != c2[2]:
                 flip_bad = {'what': 'getCardinalDir(b,a) is not the opposite of getCardinalDir(a,b) on the real SepMatrix',
-                            'ops': s, 'results': pc[i], 'replay': 'harness/c18_sep.cpp ops <file with "N" + the ops>'}
+                            'ops': s, 'results': pc[i], 'replay': REPLAY}
+        # the position-based overload freezes the PRESENT offset: right after `P i j` the present placement satisfies the record of {i,j}
+        # (decided by the really generated vpsc constraints, printed by Q)
+        if frozen_bad is None:
+            k = 0
+            for t, op in enumerate(s):
+                f = op.split()
+                if f[0] == 'P' and f[1] != f[2] and t + 1 < len(s) and s[t + 1] == 'Q' and k < len(pc[i]):
+                    key = '%d %d' % (min(int(f[1]), int(f[2])), max(int(f[1]), int(f[2])))
+                    got = [seg for seg in pc[i][k].split(' | ')[1:] if seg.startswith(key + ' ')]
+                    if pc[i][k][0] != 'Q' or not got or got[0].split()[2] != '1':
+                        frozen_bad = {'what': 'addFixedRelativeSep(id1,id2) ("constrain two nodes to sit at their present exact separation") stored a '
+                                              'record that the present placement does not satisfy',
+                                      'ops': s, 'failing_op_index': t, 'outputs': pc[i], 'model_outputs': pm[i], 'op_format': OPFMT, 'replay': REPLAY}
+                        break
+                k += n_out(op)
         if pc[i] != pm[i]:
             if pc[i] == po[i]:
                 stale_like += 1
@@ -405,15 +640,27 @@ def run(tier):
     if flip_bad:
         res.violation(flip_bad)
         prop_viol += 1
+    if frozen_bad:
+        res.violation(frozen_bad)
+        prop_viol += 1
+    opkinds = {}
+    for s in seqs:
+        for op in s:
+            opkinds[op.split()[0]] = opkinds.get(op.split()[0], 0) + 1
     cov['ops'] = {'sequences': len(seqs), 'exhaustive_two_request_sequences': n_exh,
+                  'two_request_sequences_over_all_mutator_overloads': n_ext - n_exh, 'random_sequences': len(seqs) - n_ext - n_corpus,
+                  'corpus_sequences': n_corpus, 'ops_by_kind': opkinds, 'dump_pairs_decided_by_sep_equivb': cov_equiv,
                   'sequences_where_old_stale_flag_model_differs': sum(1 for i in range(len(seqs)) if pm[i] != po[i])}
 
     # ---- 4. TGLF round trip (V)
     graphs = gen_tglf(rng.fork(), tier)
+    corpus_t = os.path.join(C.VERIF, 'corpus', 'c18_tglf.json')
+    if os.path.exists(corpus_t):
+        graphs = json.load(open(corpus_t)) + graphs
     tf_ = os.path.join(tmp, 'tglf.txt')
     with open(tf_, 'w') as fh:
         for g in graphs:
-            fh.write('\n'.join(g) + '\n')
+            fh.write('\n'.join(g['lines']) + '\n')
     rc, t_out, err, dt = C.sh([exe, 'tglf', tf_], timeout=900)
     if rc != 0:
         return fail_harness('harness c18_sep tglf failed (rc %d)' % rc, rc, err)
@@ -433,16 +680,32 @@ def run(tier):
             tcases[int(line.split()[2])] = cur
         elif cur is not None and line:
             cur.append(line)
-    tg = {'graphs': len(graphs), 'rejected_coincide': 0, 'with_constraints': 0, 'pairs_checked': 0, 'sepco_lines': 0}
+    tg = {'graphs': len(graphs), 'rejected_coincide': 0, 'with_constraints': 0, 'pairs_checked': 0, 'sepco_lines': 0,
+          'by_family': {}, 'by_id_relation': {}, 'generated_ids_written': 0}
     tglf_bad = None
     for k, g in enumerate(graphs):
         evals += 1
         ls = tcases.get(k, [])
         v = verdict.get(k, ['missing'])
-        A = sorted(l[2:] for l in ls if l.startswith('A node') or l.startswith('A edge'))
-        B = sorted(l[2:] for l in ls if l.startswith('B node') or l.startswith('B edge'))
+        tg['by_family'][g['family']] = tg['by_family'].get(g['family'], 0) + 1
+        if g['use_ext']:
+            rel = tglf_id_relation(g)
+            tg['by_id_relation'][rel] = tg['by_id_relation'].get(rel, 0) + 1
+
+        def nodes_of(tag):
+            out = []
+            for l in ls:
+                f = l.split()
+                if f[0] == tag and f[1] == 'node':
+                    out.append({'geom': ' '.join(f[2:7]), 'id': int(f[8]), 'ext': int(f[10])})
+            return out
+        An, Bn = nodes_of('A'), nodes_of('B')
+        A = [x['geom'] for x in An] + sorted(l[2:] for l in ls if l.startswith('A edge'))
+        B = [x['geom'] for x in Bn] + sorted(l[2:] for l in ls if l.startswith('B edge'))
         bad = None
-        if v[0] == 'threw':
+        if any(l.startswith('CRASH') for l in ls):
+            bad = 'the process crashed while writing / reading back the TGLF text'
+        elif v[0] == 'threw':
             tg['rejected_coincide'] += 1
             if v[1] != 'coincide=1':
                 bad = 'writeTglf threw although no pair is constrained to coincide'
@@ -450,10 +713,25 @@ def run(tier):
             if any(l.startswith('A pair') for l in ls):
                 tg['with_constraints'] += 1
             tg['sepco_lines'] += sum(1 for l in ls if l.startswith('T ') and len(l.split()) == 7)
-            if any('coincide' in l for l in ls):
-                pass
-            if A != B:
+            # the node section of the text must use pairwise distinct ids, the given external (or internal) ids where they exist
+            written = []
+            for l in ls:
+                if l == 'T #':
+                    break
+                if l.startswith('T '):
+                    written.append(int(l.split()[1]))
+            want = [(x['ext'] if x['ext'] >= 0 else None) if g['use_ext'] else x['id'] for x in An]
+            tg['generated_ids_written'] += sum(1 for w in want if w is None)
+            if len(set(written)) != len(written):
+                bad = 'two nodes were written with the same id: node section ids %s' % written
+            elif len(written) != len(An) or any(w is not None and w != x for w, x in zip(want, written)):
+                bad = 'a node was not written under its own id: wanted %s (None = to be generated), written %s' % (want, written)
+            elif any(l.startswith('READ-THROWS') for l in ls):
+                bad = 'reading the written text back threw: ' + [l for l in ls if l.startswith('READ-THROWS')][0]
+            elif A != B:
                 bad = 'nodes / edges / routes differ after the round trip'
+            elif [x['ext'] for x in Bn] != written:
+                bad = 'the graph read back does not carry the written ids as external ids'
             elif v[0] != 'pairs-equivalent':
                 bad = 'separation pairs not equivalent after the round trip: ' + ' '.join(v)
             elif 'TEXT same' not in ls:
@@ -461,10 +739,10 @@ def run(tier):
             else:
                 tg['pairs_checked'] += int(v[1])
         if bad and tglf_bad is None:
-            tglf_bad = {'what': bad, 'graph_input': g, 'harness_dump': ls[:80],
-                        'input_format': 'n ext cx cy w h (x4); e ext ext route...(x4); x extraBdryGap(x4); c ext ext gapType dir sepType gap',
-                        'replay': 'harness/c18_sep.cpp tglf <file with these lines>'}
-    # a pair that is `coincide` must be rejected: check the converse on the dumps
+            tglf_bad = {'what': 'TGLF round trip: ' + bad, 'family': g['family'], 'graph_input': g['lines'], 'harness_dump': ls[:80],
+                        'input_format': 'G useExternalIds firstInternalId; n ext(-1 = none) cx cy w h (x4); s skipped internal ids; '
+                                        'e i j route...(x4) (i, j = node positions in this list); x extraBdryGap(x4); c i j gapType dir sepType gap',
+                        'replay': '<c18_sep harness> tglf <file with these lines>'}
     if tglf_bad:
         res.violation(tglf_bad)
         prop_viol += 1
@@ -509,12 +787,16 @@ META = {
                 'iff transformed placement, sizes swapped for axis-swapping transforms, satisfies transformed pair; all 7 transforms, all kinds, '
                 'both zeros, negative gaps), transform_group (the action on all six fields incl. sign bits is a group action of D4, product = '
                 '2x2 matrix product; four quarter turns / double flips = identity), flip_equiv (storing c under (a,b) and the negated c under '
-                '(b,a) leave identical stored pairs for any prior matrix; refuted for the pre-88a99a7 stale-flag getSepPair), '
+                '(b,a) leave identical stored pairs for any prior matrix; refuted for the pre-88a99a7 stale-flag getSepPair; the same for '
+                'addFixedRelativeSep(a,b,dx,dy) and setCardinalOP; for the symmetric requests hAlign / vAlign / alignByEquatedCoord and the '
+                'position-based addFixedRelativeSep(a,b) the two id orders store records that mean the same for every placement '
+                '(align_flip_equiv, fixed_pos_flip_equiv) and the latter holds for the present placement (fixed_pos_frozen); free_sym), '
                 'getCardinalDir_flip, addSep_meaning, gen_constraint_sound (generated vpsc constraint <-> boundary-based meaning, both dims, '
                 'BDRY adds half extents + extra gap), tglf_sep_roundtrip at token level (write_sep then read_sep keeps the meaning, also with '
                 'the reader\'s ids reversed) and tglf_rejected_iff (exactly the coinciding pairs are rejected). Tie: exhaustive correspondence '
                 'of the model with the compiled library on every run (576 states x 7 transforms / 49 pairs / 192 requests, SepMatrix op '
-                'sequences, generated constraints) plus the property oracles run on the real outputs.',
+                'sequences over every public mutator overload, generated constraints) plus the property oracles run on the real outputs '
+                '(incl. TGLF round trips in both id modes over graphs mixing nodes with and without external ids).',
         'design_ref': 'DESIGN.md 5.18'},
     'level_note': 'SepPair::transform could not be obtained through cpp2v (no switch / std::swap in its fragment, double->Q loses the sign bit): '
                   'it is hand-modelled and tied by the exhaustive field-by-field correspondence instead. Trusted: Coq kernel; the hand model '
